@@ -19,7 +19,8 @@ import (
 
 func init() {
 	register(&Prop{ID: "C01", Run: runC01, Replay: map[string]func(*mc.Ctx, json.RawMessage){
-		"addr": replayer(c01Eval),
+		"addr":  replayer(c01Eval),
+		"batch": replayer(c01EvalBatch),
 	}})
 }
 
@@ -230,6 +231,7 @@ func runC01(c *mc.Ctx) {
 	c.Rule("every (net, kind, payload) of the enumerated families is constructed, encoded, compared with the reference CashAddr/Base58Check encoder and decoded back from every rendering (lower, UPPER, prefix:lower, PREFIX:UPPER); non-trivial = payloads with a leading zero byte or a set lowest bit (exercise padding/leading-zero paths)")
 	c.Assume("hash values outside the structured families (fills, walking bits, leading/trailing zero runs, two-bit patterns on thorough) behave alike: the encoder is data-independent except through 5-bit packing and leading zeros")
 	c.Assume("SHA-256, RIPEMD-160 from the Go standard/x libraries are trusted")
+	runC01Retain(c)
 
 	h160 := hashFamily(20, c.Thorough())
 	h256 := hashFamily(32, c.Thorough())
